@@ -143,3 +143,21 @@ package parse
 //@   modifies t, t.errt
 //@   ensures n.errt == old(t.errt) && errOff(n.errt) && n.errt.qOrig == old(t.errt.qOrig)
 //@   ensures old(t.errt.err) != nil ==> n.errt.err == old(t.errt.err)
+
+// keyOrOp / valueOrOp: next without / with regular expressions; same guarantees.
+//@ func (t *tokenizer) keyOrOp() (k tok, n tokenizer)
+//@   props C07
+//@   requires t != nil && tokOK(deref(t)) && errOff(t.errt)
+//@   modifies t, t.errt
+//@   ensures tokOK(n) && n.errt == old(t.errt) && t.errt == old(t.errt) && t.errt.qOrig == old(t.errt.qOrig) && 0 <= k.Off <= len(t.errt.qOrig)
+//@   ensures errOff(t.errt) && (old(t.errt.err) != nil ==> t.errt.err == old(t.errt.err))
+//@   ensures tokOK(deref(t)) && len(t.q) <= old(len(t.q))
+//@   ensures len(n.q) <= old(len(t.q)) && (k.Kind != 0 ==> len(n.q) < old(len(t.q)))
+//@ func (t *tokenizer) valueOrOp() (k tok, n tokenizer)
+//@   props C07
+//@   requires t != nil && tokOK(deref(t)) && errOff(t.errt)
+//@   modifies t, t.errt
+//@   ensures tokOK(n) && n.errt == old(t.errt) && t.errt == old(t.errt) && t.errt.qOrig == old(t.errt.qOrig) && 0 <= k.Off <= len(t.errt.qOrig)
+//@   ensures errOff(t.errt) && (old(t.errt.err) != nil ==> t.errt.err == old(t.errt.err))
+//@   ensures tokOK(deref(t)) && len(t.q) <= old(len(t.q))
+//@   ensures len(n.q) <= old(len(t.q)) && (k.Kind != 0 ==> len(n.q) < old(len(t.q)))
